@@ -16,6 +16,7 @@ RULE = ("Generated: same portfolio mix as C01 (all asset classes incl. split, pe
         "fresh copy (monolithic builds; per mapping for split builds); DCF is zero outside the asset's window. "
         "Non-trivial: optimal, >= 2 assets with non-zero DCF and a build that re-indexes (split / periodic / coarse / "
         "structured / scaled / order book). Distinct = distinct spec hash.")
+RULE += (' Round 5: a portfolio asset named like an asset wrapped in a structured asset; MIP portfolios optimised relaxed (make_soft_problem) in a third of the cases - the identities hold for whatever solution is reported.')
 ASSUMPTIONS = ["tolerance 2e-6*(1+|value|) on sums of products of solver output",
                "set-up errors of special variants are discarded and counted (owned by C13/C08)"]
 
